@@ -66,6 +66,8 @@ var vpIntKinds = map[string]types.BasicKind{
 	"Uint8": types.Uint8, "Uint16": types.Uint16, "Uint32": types.Uint32, "Uint64": types.Uint64, "Byte": types.Uint8,
 }
 
+var vpBodies = map[string]bool{"ModelDial": true, "ModelReceived": true, "ModelDials": true}
+
 func (e *Engine) vpCall(st *State, name string, args []Value, site ssa.Instruction, ret func(*State, Value)) bool {
 	if k, ok := vpIntKinds[name]; ok {
 		label := constStr(args[0], "vp label")
@@ -296,6 +298,13 @@ func (e *Engine) vpCall(st *State, name string, args []Value, site ssa.Instructi
 		ret(st, c)
 	case "Gunzip":
 		ret(st, args[0])
+	case "UpstreamListen":
+		st.ghost["upstream"] = tTrue
+		ret(st, KStr("upstream.test:1"))
+	case "UpstreamReceived":
+		return e.invoke(st, FuncVal{Fn: e.vpFunc("ModelReceived")}, nil, site, ret)
+	case "UpstreamDials":
+		return e.invoke(st, FuncVal{Fn: e.vpFunc("ModelDials")}, nil, site, ret)
 	case "Observe":
 		ret(st, nil)
 	default:
@@ -722,4 +731,16 @@ func (e *Engine) findSourceLine(pat string) string {
 		return ""
 	}
 	return found
+}
+
+func (e *Engine) vpFunc(name string) *ssa.Function {
+	for _, p := range e.prog.AllPackages() {
+		if p.Pkg.Path() == e.vpPkg {
+			if f := p.Func(name); f != nil {
+				return f
+			}
+		}
+	}
+	unsup("vp.%s not found", name)
+	return nil
 }
